@@ -66,6 +66,13 @@ func (cw *c15World) completion(ctx context.Context, req llm.CompletionRequest, f
 	verifsim.Yield("sim:completion")
 	out := []string{"hello ", "wonderful ", `{"name":"get_weather","arguments":{"city":"Paris"}}`, " world"}
 	n := 1 + verifsim.Draw("c15-frags", len(out))
+	if n >= 3 {
+		// what models really emit where a tool call is expected: arguments as a string of
+		// JSON (the OpenAI shape), null, a list, a number; a name that is not a string
+		odd := []string{out[2], out[2], `{"name":"get_weather","arguments":"{\"city\":\"Paris\"}"}`, `{"name":"get_weather","arguments":null}`,
+			`{"name":"get_weather","arguments":["Paris"]}`, `{"name":"get_weather","arguments":7}`, `{"name":null,"arguments":{"city":"Paris"}}`, `{"name":"get_weather"}`}
+		out[2] = odd[verifsim.Draw("c15-call-shape", len(odd))]
+	}
 	for i := 0; i < n; i++ {
 		verifsim.Sleep(time.Duration(verifsim.Draw("lat", 30)) * time.Millisecond)
 		if err := ctx.Err(); err != nil {
